@@ -470,7 +470,15 @@ func (s *Writer) loadSnapshot(epoch uint64) (*Snapshot, error) {
 		dataReader = crcReader
 	}
 
-	_, err = snapshot.ReadFrom(dataReader)
+	var bytesDecoded int64
+	bytesDecoded, err = snapshot.ReadFrom(dataReader)
+	if err == nil && bytesDecoded != int64(data.Len()-crcWidth) {
+		// the checksum follows the last segment directly, anything else
+		// in between was not written by us (and may not even have been
+		// covered by the computed checksum)
+		err = fmt.Errorf("snapshot %d: %d bytes follow the last segment",
+			epoch, int64(data.Len()-crcWidth)-bytesDecoded)
+	}
 	if err != nil {
 		if closer != nil {
 			_ = closer.Close()
